@@ -36,7 +36,7 @@ def gen_history(rng, maxlen, mix):
         T = threshold(itv)
         d, e, o = cfloat.encode(rng.uniform(1e-4, 0.2)), cfloat.encode(rng.uniform(1e-6, 0.05)), cfloat.encode(rng.uniform(-0.05, 0.05))
         # the PHC driver's number is added verbatim, whatever it is: also values no sane driver reports
-        phc = rng.choice([0, 0, 0, rng.randrange(10 ** 5), rng.choice([-1, -12345, -(10 ** 9), -(10 ** 12), 10 ** 12, 2 ** 40])])
+        phc = rng.choice([0, 0, 0, rng.randrange(10 ** 5), rng.choice([-1, -12345, -(10 ** 9), -(10 ** 12), 10 ** 12, 2 ** 40, 2 ** 32 - 1, 2 ** 32, 2 ** 31 - 1, 2 ** 31, 65535])])
         prev = next((m for m in reversed(out) if m[0] == "r"), None)
         if prev is not None and rng.random() < 0.25:
             # the previous report again with exactly one field changed (what an updater remembers about a
@@ -166,6 +166,44 @@ def run_timed(pid, res, rng, binary, n):
     return diffs, bad
 
 
+def run_two_lives(pid, res, rng, binary, n):
+    """two instances of the daemon's writer side, one after the other, over one segment file (harness
+    `upd2`): the second starts over whatever the first left - possibly only the start-up placeholder,
+    possibly a trusted record - and possibly with another drift rate.  Each life is judged on its own:
+    what an earlier instance left in the segment must not count as a measurement of this one."""
+    cases = []
+    for k in range(n):
+        h1 = gen_history(rng, 5, MIXES[2] if k % 2 == 0 else MIXES[k % len(MIXES)])
+        h2 = gen_history(rng, 6, MIXES[2] if k % 3 else MIXES[0])
+        d1, d2 = rng.choice([1000, 50000]), rng.choice([1000, 50000, 200000])
+        cases.append((d1, h1, d2, h2))
+    lines = ["upd2 " + line_of(d1, h1)[4:] + " " + line_of(d2, h2)[4:] for d1, h1, d2, h2 in cases]
+    impl = c.run_lines(binary, lines)
+    m1 = c.run_model([line_of(d1, h1) for d1, h1, d2, h2 in cases])
+    m2 = c.run_model([line_of(d2, h2) for d1, h1, d2, h2 in cases])
+    res.evaluations += len(cases)
+    diffs, bad = [], []
+    for (d1, h1, d2, h2), ln, i, a, b in zip(cases, lines, impl, m1, m2):
+        res.count("gen:two lives over one segment")
+        res.nontriv(ln)
+        ra, rb = parse_out(a), parse_out(b)
+        model = None if ra is None or rb is None else "%d %s" % (len(ra) + len(rb), " ".join(" ".join(str(x) for x in r) for r in ra + rb))
+        if model is None or i.split() != model.split():
+            diffs.append({"case": ln, "impl": i, "model": model})
+        recs = parse_out(i)
+        if recs is None:
+            bad.append({"case": ln, "impl": i, "model": model, "why": ["implementation outcome: " + i[:200]]})
+            continue
+        r1, r2 = recs[:len(h1)], recs[len(h1):]
+        for life, (d, h, r) in enumerate(((d1, h1, r1), (d2, h2, r2))):
+            out = "%d %s" % (len(r), " ".join(" ".join(str(x) for x in rr) for rr in r))
+            why = judge(line_of(d, h), out, pid)
+            if why:
+                bad.append({"case": ln, "impl": i, "model": model, "why": ["life %d of the daemon (its own messages: %s): " % (life + 1, line_of(d, h)[:200])] + why})
+                break
+    return diffs, bad
+
+
 def line_of(drift, hist):
     parts = ["upd", str(drift), str(len(hist))]
     for m in hist:
@@ -241,6 +279,10 @@ def judge(line, out, want):
             elif st != 0 and (as_s, as_n) == (0, 0):
                 bad.append("record %d: status %d published with the start-up placeholder (as-of 0, bound %d): no measurement stands behind it" % (k, st, bound))
         prev = (as_s, as_n, va_s, va_n, bound)
+    if want == "C09" and last is None:
+        for k in range(len(hist), len(recs)):      # records the daemon published on its own (e.g. while stopping)
+            if recs[k][6] != 0:
+                bad.append("record %d (published after the last message): status %d although no synchronised report was ever received" % (k, recs[k][6]))
     return bad
 
 
@@ -315,6 +357,9 @@ def run_property(pid, res, proofs_ok, proofs_why, only=None):
     if only is None:
         tdiffs, tbad = run_timed(pid, res, rng, binary, n // 3)
         diffs += tdiffs
+        ldiffs, lbad = run_two_lives(pid, res, rng, binary, n // 4)
+        diffs += ldiffs
+        tbad += lbad
     res.samples = [{"case": lines[k], "impl": impl[k], "model": model[k]} for k in range(0, len(lines), max(1, len(lines) // 4))][:4]
     res.traces_validated = res.evaluations - len(diffs)
     res.oblige("correspondence:process_messages+ShmUpdater+FSM (through real ShmWriter/ShmReader) vs Updater.urun", not diffs)
@@ -342,6 +387,35 @@ def run_property(pid, res, proofs_ok, proofs_why, only=None):
         res.violation({"property": pid, "kind": "obligation", "obligation": proofs_why}, found_input=False)
 
 
+def split_two(ln):
+    """an `upd2` line as the two `upd` lines of its lives"""
+    t = ln.split()[1:]
+    i = 2
+    for _ in range(int(t[1])):
+        i += 12 if t[i] == "r" else 2
+    return "upd " + " ".join(t[:i]), "upd " + " ".join(t[i:])
+
+
+def replay_two(pid, ln):
+    l1, l2 = split_two(ln)
+    out = c.run_lines(c.build_harness("debug")[0], [ln])[0]
+    ra, rb = [parse_out(x) for x in c.run_model([l1, l2])]
+    model = "%d %s" % (len(ra) + len(rb), " ".join(" ".join(str(x) for x in r) for r in ra + rb))
+    recs = parse_out(out)
+    why = []
+    if recs is None:
+        why = ["implementation outcome: " + out[:200]]
+    else:
+        n1 = len(parse_line(l1)[1])
+        for life, (l, r) in enumerate(((l1, recs[:n1]), (l2, recs[n1:]))):
+            w = judge(l, "%d %s" % (len(r), " ".join(" ".join(str(x) for x in rr) for rr in r)), pid)
+            if w:
+                why = ["life %d of the daemon: " % (life + 1)] + w
+                break
+    print("case  %s\nimpl  %s\nmodel %s\npredicate: %s" % (ln, out, model, why or "holds"))
+    return 1 if (why or out.split() != model.split()) else 0
+
+
 def replay_property(pid, res, path):
     r = json.load(open(path))
     case = r.get("case", {})
@@ -350,6 +424,8 @@ def replay_property(pid, res, path):
     if ln is None and "first_differences" in r:
         ln = r["first_differences"][0]["case"]
         ml = r["first_differences"][0].get("equivalent_untimed")
+    if ln.startswith("upd2"):
+        return replay_two(pid, ln)
     out = c.run_lines(c.build_harness("debug")[0], [ln])[0]
     m = c.run_model([ml or ln])[0]
     why = judge(ml or ln, out, pid)
